@@ -8,6 +8,8 @@ def dispatch (j : Json) : Json :=
   | "gmm_estep" => opGmmEstep j
   | "gmm_mstep_ml" => opGmmMstepMl j
   | "gmm_mstep_map" => opGmmMstepMap j
+  | "stats_add" => opStatsAdd j
+  | "em_stop" => opEmStop j
   | op => obj [("err", Json.str s!"bad-op {op}")]
 
 partial def loop (h : IO.FS.Stream) (out : IO.FS.Stream) : IO Unit := do
